@@ -667,6 +667,51 @@ def _inline_accumulator(h: "_Helper", recv, call: ast.Call, acc: str,
     return pre + [_SubstNames(env).visit(_Ren().visit(s_)) for s_ in mid]
 
 
+def _inline_star(h: "_Helper", recv, st: ast.Expr, star: ast.Starred,
+                 counter: List[int]) -> Optional[List[ast.stmt]]:
+    body = _strip_doc(h.node.body)  # type: ignore[attr-defined]
+    if not body or not isinstance(body[-1], ast.Return) or body[-1].value is None:
+        return None
+    if any(isinstance(x, (ast.Return, ast.Yield, ast.YieldFrom, ast.Await))
+           for s_ in body[:-1] for x in _walk_scope(s_)):
+        return None
+    env = h.bind(star.value, recv)  # type: ignore[arg-type]
+    if env is None:
+        return None
+    counter[0] += 1
+    suffix = f"_h{counter[0]}"
+    body = copy.deepcopy(body)
+    stored = {x.id for s_ in body for x in _walk_scope(s_)
+              if isinstance(x, ast.Name) and isinstance(x.ctx, ast.Store)}
+    pre: List[ast.stmt] = []
+    for p_ in list(env):
+        if p_ in stored:
+            pre.append(ast.Assign(targets=[ast.Name(id=p_ + suffix, ctx=ast.Store())],
+                                  value=copy.deepcopy(env[p_])))
+            env[p_] = ast.Name(id=p_ + suffix, ctx=ast.Load())
+    ren = {nm: nm + suffix for nm in stored}
+
+    class _Ren(ast.NodeTransformer):
+        def visit_Name(self, node: ast.Name) -> ast.AST:
+            if node.id in ren and node.id not in env:
+                return ast.copy_location(ast.Name(id=ren[node.id], ctx=node.ctx), node)
+            return node
+    body = [_SubstNames(env).visit(_Ren().visit(s_)) for s_ in body]
+    ret = body[-1].value
+    call = copy.deepcopy(st.value)
+    new_args: List[ast.AST] = []
+    for a_, orig in zip(call.args, st.value.args):  # type: ignore[attr-defined]
+        if orig is star:
+            if isinstance(ret, (ast.Tuple, ast.List)):
+                new_args.extend(ret.elts)
+            else:
+                new_args.append(ast.Starred(value=ret, ctx=ast.Load()))
+        else:
+            new_args.append(a_)
+    call.args = new_args  # type: ignore[attr-defined]
+    return pre + body[:-1] + [ast.Expr(value=call)]
+
+
 def _inline_proc_calls(fn: ast.AST, helpers, cls, counter: List[int]) -> int:
     n = 0
     for block in list(_blocks(fn)):
@@ -706,6 +751,23 @@ def _inline_proc_calls(fn: ast.AST, helpers, cls, counter: List[int]) -> int:
                     n += 1
                     i += len(new_a) or 1
                     continue
+            # f(*helper(...)): the helper computes the argument tuple
+            if isinstance(st, ast.Expr) and isinstance(st.value, ast.Call):
+                stars = [a_ for a_ in st.value.args if isinstance(a_, ast.Starred) and
+                         isinstance(a_.value, ast.Call)]
+                if len(stars) == 1:
+                    h_s, recv_s = _helper_of_call(stars[0].value, helpers, cls)
+                    new_s = _inline_star(h_s, recv_s, st, stars[0], counter) \
+                        if h_s is not None else None
+                    if new_s is not None:
+                        for s_ in new_s:
+                            for x in ast.walk(s_):
+                                if not hasattr(x, "lineno"):
+                                    ast.copy_location(x, st)
+                        block[i:i + 1] = new_s
+                        n += 1
+                        i += len(new_s)
+                        continue
             h = recv = None
             if call is not None:
                 h, recv = _helper_of_call(call, helpers, cls)
